@@ -166,7 +166,7 @@ type Payload struct {
 }
 
 func (e *emitter) add(g Graph) {
-	h := fw.HashOf(g.Mods, g.Order, g.Mut, g.ViaValue, g.Leaks, g.SingDirect)
+	h := fw.HashOf(g.Mods, g.Order, g.Mut, g.ViaValue, g.Leaks, g.SingDirect, g.Exit, g.Catch, g.Callback)
 	if e.seen[h] {
 		return
 	}
@@ -732,9 +732,125 @@ func famReexport(e *emitter) {
 	}
 }
 
+// ---- family "exits": every way a call can end, across module boundaries -------------------------
+
+// exitMode is one combination of how functions end, where thrown results are caught and whether
+// function values travel across the module boundaries.
+type exitMode struct{ exit, catch, callback string }
+
+// exitModes lists every combination except the plain one (tail value, no callbacks), which all
+// other families use.
+func exitModes() []exitMode {
+	var out []exitMode
+	for _, cb := range []string{"", "own", "relay"} {
+		for _, ex := range []string{"", "return", "throw", "throw-deep"} {
+			if ex == "" && cb == "" {
+				continue
+			}
+			out = append(out, exitMode{ex, "", cb})
+			if ex == "throw" || ex == "throw-deep" {
+				out = append(out, exitMode{ex, "entry", cb})
+			}
+		}
+	}
+	return out
+}
+
+// withCallback gives every module the private function k that it hands out as a callback.
+func withCallback(g *Graph, mode string) {
+	if mode == "" {
+		return
+	}
+	g.Callback = mode
+	for i := range g.Mods {
+		g.Mods[i].Items = append(g.Mods[i].Items, Item{Name: cbName, Kind: "fn"})
+	}
+	g.Order = append([]string{cbName}, g.Order...)
+}
+
+// famExits: entry + n-1 modules, every acyclic set of import edges that reaches every module;
+// every module has its edge function, a private function f and a private global (one name shared
+// by all modules, or one name per module), the last module also a pub function g that its
+// importers call from their own functions; every exit mode; direct calls and (vias == 2) calls
+// through function values. Graphs with an illegal import are left out: the diagnostics do not depend on how
+// functions end (the other families enumerate them). Plus, on one diamond, modules that all declare
+// a singleton `$K`, reached through extraction parameters or `$K` expressions.
+func famExits(e *emitter, n int, modes []exitMode, vias int) {
+	names := []string{"main", "a", "b", "c"}[:n]
+	type edge struct{ from, to int }
+	var all []edge
+	for i := 0; i < n; i++ {
+		for j := 0; j < n; j++ {
+			if i != j {
+				all = append(all, edge{i, j})
+			}
+		}
+	}
+	build := func(mask int, overlap bool) Graph {
+		g := Graph{Family: "exits", Order: []string{"f", "g"}}
+		for i, nm := range names {
+			v := "v" + nm
+			if overlap {
+				v = "v"
+			}
+			items := []Item{{Name: "f", Kind: "fn"}, {Name: v, Kind: "let"}}
+			if i == n-1 {
+				items = append(items, Item{Name: "g", Kind: "fn", Pub: true})
+			}
+			g.Mods = append(g.Mods, newMod(nm, true, items...))
+			if !overlap || i == 0 {
+				g.Order = append(g.Order, v)
+			}
+		}
+		for i := 0; i < n; i++ {
+			var targets []string
+			for k, ed := range all {
+				if mask&(1<<k) != 0 && ed.from == i {
+					targets = append(targets, names[ed.to])
+				}
+			}
+			autoImport(&g, i, targets...)
+		}
+		return g
+	}
+	for mask := 1; mask < 1<<len(all); mask++ {
+		probe := build(mask, false)
+		if lk := LinkGraph(&probe); !lk.Accepted || len(lk.ReachSeq) != n {
+			continue
+		}
+		for _, md := range modes {
+			for overlap := 0; overlap < 2; overlap++ {
+				for via := 0; via < vias; via++ {
+					g := build(mask, overlap == 1)
+					g.Exit, g.Catch, g.ViaValue = md.exit, md.catch, via == 1
+					withCallback(&g, md.callback)
+					e.add(g)
+				}
+			}
+		}
+	}
+	if n != 3 {
+		return
+	}
+	for _, md := range modes {
+		for direct := 0; direct < 2; direct++ {
+			g := Graph{Family: "exits", Order: []string{"f", "v"}, SingDirect: direct == 1, Exit: md.exit, Catch: md.catch}
+			g.Mods = []Mod{shapeMod("main", kPrivFn, kPrivLet, 0), shapeMod("a", kPubFn, kPrivLet, 0), shapeMod("b", kPrivFn, kPubLet, 0)}
+			for i := range g.Mods {
+				g.Mods[i].Items = append(g.Mods[i].Items, Item{Name: "K", Kind: "sing"})
+			}
+			withCallback(&g, md.callback)
+			autoImport(&g, 1, "b")
+			autoImport(&g, 0, "a", "b")
+			e.add(g)
+		}
+	}
+}
+
 // ---- family "sample": random graphs beyond the enumerated bounds ------------------------------
 
-func famSample(e *emitter, r *fw.Rng, r2 *fw.Rng, count int) {
+func famSample(e *emitter, r *fw.Rng, r2 *fw.Rng, r3 *fw.Rng, count int) {
+	modes := exitModes()
 	modNames := []string{"main", "a", "b", "c", "d"}
 	for i := 0; i < count; i++ {
 		n := 3 + r.Intn(3)
@@ -888,6 +1004,13 @@ func famSample(e *emitter, r *fw.Rng, r2 *fw.Rng, count int) {
 				m.Imports = append(m.Imports[:pos], append([]Import{bad}, m.Imports[pos:]...)...)
 			}
 		}
+		// a third stream: how calls end (return, throw caught at the call site or in main) and
+		// function values handed across the module boundaries
+		if r3.Chance(1, 3) {
+			md := modes[r3.Intn(len(modes))]
+			g.Exit, g.Catch = md.exit, md.catch
+			withCallback(&g, md.callback)
+		}
 		e.add(g)
 	}
 }
@@ -898,8 +1021,10 @@ func Bound(tier string) string {
 	e3 := "over 3 modules without self imports with one private global name shared by all modules"
 	e4 := "over 4 modules without self imports (2^12)"
 	singL := "none or {a, b}"
+	ex4 := ""
 	if tier == "thorough" {
 		singL = "none, {main, a}, {main, b}, {a, b} or all"
+		ex4 = " or (direct calls only) 3 modules"
 		tri = "f and v each in {none, pub fn, fn, pub let, let}"
 		e3 = "over 3 modules including self imports also with reversed statement order and with one private global name shared by all modules"
 		e4 = "over 4 modules without self imports (2^12), also with reversed statement order and with one private global name shared by all modules"
@@ -913,6 +1038,7 @@ func Bound(tier string) string {
 		"bare: entry + a, b where a and/or b declare no singleton, with and without a global, every subset of {main->a, main->b, a->b, b->a}. " +
 		"reexport: `import trigger minute` / `import templ FooFeature` from a user module that imported it from the host or has no such name; importer = entry or non-entry; alone or first in a braced list. " +
 		"leaks: a module uses fn/let/type x (pub or private) of another module without importing it: user = entry, sibling or imported module; with and without a third module importing it legally. " +
+		"exits: entry + 1 or 2 modules" + ex4 + ", every acyclic set of import edges that reaches every module (edge function, private fn f, private global under one shared name or one name per module, a pub fn g in the last module), in every combination of how functions end {tail value, `return`, `throw(result)`, throw from a private helper of the module} x where a thrown result is caught {`try` around every call, only in the entry's main} x function values handed across the boundary {none, every edge function is handed its caller's private k and calls it, the entry's k is handed down the chain} except the plain one; direct calls and calls through function values; plus one diamond whose modules all declare `$K` (extraction parameters or `$K` expressions) in every such combination. " +
 		"mangle: modules a / a_b (m / m_n) with items b_c / c (n_x1 / x1) of every kind pair (pub/private fn/let) in three import shapes. mut: 14 graphs in which functions write through pub and imported globals"
 }
 
@@ -952,7 +1078,12 @@ func buildCases(tier string, seed uint64) []fw.Case {
 	if thorough {
 		n = 12000
 	}
-	famSample(e, fw.NewRng(seed^0xC15), fw.NewRng(seed^0xC15D), n)
+	famExits(e, 2, exitModes(), 2)
+	famExits(e, 3, exitModes(), 2)
+	if thorough {
+		famExits(e, 4, exitModes(), 1)
+	}
+	famSample(e, fw.NewRng(seed^0xC15), fw.NewRng(seed^0xC15D), fw.NewRng(seed^0xC15E), n)
 	e.flushAll()
 	return e.cases
 }
